@@ -1216,7 +1216,7 @@ def run(chk, cases=None):
     fast = [i for i in range(len(cases)) if i not in slow_set]
     # every optimal_completion output of the run is also judged by the spec alone (model-free)
     NEW = ("loss-empty-ref", "eos-mix", "sparse-defaults", "entry-layout", "numeric", "long-ref", "long-hyp", "tie-scale")
-    oc_idx = [i for i, c in enumerate(cases) if c["api"] == "oc" and i not in slow_set and _spec_work(c) <= 400_000 and
+    oc_idx = [i for i, c in enumerate(cases) if c["api"] == "oc" and i not in slow_set and _spec_work(c) <= 200_000 and
               (replaying or (chk.tier == "thorough" and streams[i] != "exhaustive") or
                i % (4 if streams[i] in NEW else 2) == 0)]
     pool = ThreadPoolExecutor(max_workers=3)
@@ -1251,7 +1251,7 @@ def run(chk, cases=None):
     orc_idx = [i for i, c in enumerate(cases) if c.get("tiescale") and "exc" not in outs[i]]
     orc_bad = []
     for i in orc_idx:
-        tc = cases[i] if cases[i]["api"] == "oc" else _targets_case(cases[i])
+        tc = cases[i] if cases[i]["api"] == "oc" else dict(_targets_case(cases[i]), entry=None)
         if not oracle_ok(tc, outs[i] if cases[i]["api"] == "oc" else run_impl(tc)):
             orc_bad.append(i)
     chk.extra["oracle_judged_outputs"] = len(orc_idx)
@@ -1281,7 +1281,7 @@ def run(chk, cases=None):
     if bad and not found_concrete:
         hit = [i for i in bad if i in spec_bad]
         if not hit:
-            rest = [i for i in bad if cases[i]["api"] == "oc" and i not in oc_idx and _spec_work(cases[i]) <= 400_000]
+            rest = [i for i in bad if cases[i]["api"] == "oc" and i not in oc_idx and _spec_work(cases[i]) <= 200_000]
             r2 = coq_eval_bools(chk.workdir, IMPORTS, [spec_term(cases[i], outs[i]) for i in rest], tag="specbad")
             hit = [i for i, ok in zip(rest, r2) if not ok]
         if hit:
